@@ -747,8 +747,8 @@ impl Property for C20 {
     }
     fn runs(&self, tier: Tier) -> u64 {
         match tier {
-            Tier::Quick => 150_000,
-            Tier::Thorough => 4_000_000,
+            Tier::Quick => 600_000,
+            Tier::Thorough => 20_000_000,
         }
     }
     fn probe_names(&self) -> &'static [&'static str] {
@@ -830,6 +830,7 @@ impl Property for C20 {
                     let mut knobs = gen_knobs(src, kind.mask(), false);
                     knobs.scale = [8, 24][src.draw(2) as usize];
                     knobs.max_width = knobs.max_width.min(5);
+                    knobs.origin = [src.draw(48) as i32, src.draw(48) as i32];
                     Step::Drawable(gen_drawable(src, &knobs, kind.bits()))
                 }
                 9 => Step::SetPixel {
